@@ -425,11 +425,11 @@ func (s *clientSocket) onConnect(_ *parser.PacketHeader, decode parser.Decode) {
 		return
 	}
 
+	// The session is recovered only if the server hands back the session ID that was presented.
+	// Otherwise it is a new session: also after an earlier one that was recovered.
+	pid, ok := s.pid()
+	s.setRecovered(ok && v.PID != "" && pid == adapter.PrivateSessionID(v.PID))
 	if v.PID != "" {
-		pid, ok := s.pid()
-		if ok && pid == adapter.PrivateSessionID(v.PID) {
-			s.setRecovered(true)
-		}
 		s.setPID(adapter.PrivateSessionID(v.PID))
 	}
 
